@@ -198,6 +198,17 @@ def ob_dial_loop(report):
             evs = r.events
             # dial iterations: segments between consecutive `next begin` markers that contain a dial
             begins = [i for i, e in enumerate(evs) if e.kind == 'next' and e.name == 'begin']
+            walked = bool(begins) or any(e.kind in ('next', 'collect', 'collect-item', 'elem') or (e.kind == 'drop' and e.args and isinstance(e.args[0], Agg) and e.args[0].name == 'AIter')
+                                         for e in evs)
+            if r.tag == 'return' and not walked:
+                # the check ended without walking the eligible peers: only allowed when nothing could be dialed anyway (no budget left)
+                ex.queries += 1
+                qv, m, _ = solve(r.pc + [z3.UGT(budget, 0)])
+                if qv != 'unsat':
+                    sample = path_summary(r)
+                    sample['counterexample'] = model_dict(m, 8)
+                    return violation(ob, [ex], 'a connectivity check returns without looking at the known peers although dials could be started (budget > 0): under that condition '
+                                     'eligible peers are not dialed in this tick - e.g. while an earlier dial to an unresponsive address is still pending', 'loop-skipped', sample, len(res))
             segs = [(b, (begins[n + 1] if n + 1 < len(begins) else len(evs))) for n, b in enumerate(begins)]
             stray = [e for i, e in enumerate(evs) if e.kind == 'dial' and not any(a <= i < b for a, b in segs)]
             if stray:
